@@ -401,6 +401,17 @@ def evaluate(c: Case):
     out = []
     if c.ok and f"{cmd.verb}|{cmd.code}" != c.api:
         out.append((f"C03:{tag}:wrong-verb-code", f"{call} is registered as {c.api!r} but built {cmd.verb}|{cmd.code}: {cmd}"))
+    if c.ok:
+        # the decoder first meets the same code and payload under every OTHER verb (traffic of other devices: mostly rejected there) -
+        # its verdict on the constructor's own frame must not depend on that history
+        from ramses_tx.command import Command as _Cmd
+
+        for v2 in ("RQ", "RP", " I", " W"):
+            if v2 != cmd.verb:
+                try:
+                    Message._from_cmd(_Cmd(v2 + str(cmd)[2:]))
+                except Exception:  # noqa: BLE001
+                    pass
     try:
         msg = Message._from_cmd(cmd)
         pay = msg.payload
